@@ -2354,14 +2354,16 @@ class Recipe:
                     step.instructions = f"Remove all {Substance.classes[what]} from '{dest_name}'."
                 self.results[dest_name] = dest.remove(what)
                 step.to.append(self.results[dest_name])
-                # substances_used is everything that is in step.to[0] but not in step.to[1]
-                step.substances_used = set.difference(step.to[0].get_substances(), step.to[1].get_substances())
+                # trash is everything that was in a container or well before the step and is not there after it
                 if isinstance(dest, Container):
-                    step.trash = {substance: step.to[0].contents[substance] for substance in step.substances_used}
+                    pairs = [(step.to[0], step.to[1])]
                 else:  # Plate
-                    for well in step.to[0].wells.flatten():
-                        for substance in step.substances_used:
-                            step.trash[substance] = step.trash.get(substance, 0.) + well.contents.get(substance, 0.)
+                    pairs = zip(step.to[0].wells.flatten(), step.to[1].wells.flatten())
+                for before, after in pairs:
+                    for substance, amount in before.contents.items():
+                        if substance not in after.contents:
+                            step.trash[substance] = step.trash.get(substance, 0.) + amount
+                step.substances_used = set(step.trash)
             elif operator == 'dilute':
                 dest = step.to[0]
                 dest_name = dest.name
